@@ -6,6 +6,7 @@ Model (JSON):
             "srcdir": "." | "src",                 # where the package lives (search path relative to the repository root)
             "gitignore": bool,                     # a committed .gitignore listing __pycache__/
             "commits": [commit, ...],              # 2..4, on branch main
+            "late_package": bool,                  # the package only appears with the second commit (first commit: absent)
             "tags": [[name_index, commit_index], ...],
             "branches": [[name_index, commit_index], ...],      # BRANCH_NAMES contains names with slashes
             "head": "main" | "branch" | "detached",              # what is checked out when Griffe runs
@@ -30,6 +31,8 @@ Model (JSON):
           "against_none": bool,                    # check only: let Griffe pick the latest tag
           "force": bool, "resolve_aliases": bool, "external": None | True | False,   # load_git: resolve_external
           "preexisting": bool,
+          "root_on_syspath": bool,                 # the process has the working tree's source root on sys.path (tools run from the
+                                                   # project root, editable installs): the *current* package is importable
           "thread": bool,                          # the operation is called from a worker thread (threading.Thread; result/exception handed back)
           "user_wt": None | "ref" | "griffe-ref",   # before the operation the user adds a linked worktree of their own whose directory
                                                     # basename is normalize(ref) / "griffe-" + normalize(ref)
@@ -141,6 +144,14 @@ def render_commit(name: str, commit: dict, j: int, sibling=None) -> dict[str, st
     return files
 
 
+def normalise(case) -> dict:
+    """Apply case-level switches that rewrite the history model (so that every reader sees the same commits)."""
+    if case.get("late_package") and case["commits"] and case["commits"][0]["state"] != "absent":
+        case = dict(case)
+        case["commits"] = [{**case["commits"][0], "state": "absent"}, *case["commits"][1:]]
+    return case
+
+
 def build_repo(case, base: Path) -> dict:
     """Create the repository under `base`; -> {"repo": Path, "name": pkg name, "shas": [...], "tags": {...}, "branches": {...}}."""
     name = pkg_name(case)
@@ -217,6 +228,7 @@ def build_repo(case, base: Path) -> dict:
         head_commit = max(0, len(shas) - 2)
         git(repo, "checkout", "-q", "--detach", shas[head_commit])
     info = {"repo": repo, "name": name, "sibling": sibling_name(name, case.get("sibling")), "shas": shas, "tags": tags, "branches": branches, "head_commit": head_commit, "src": src,
+            "commit_states": [c["state"] for c in case["commits"]],
             "local_branches": local_branches, "clone": clone, "local_tags": (set() if clone and case.get("clone_no_tags") else set(tags)), "user_worktrees": [], "base": base}
     # ---- the user's own uncommitted work, which must survive
     d = case["dirty"]
@@ -271,6 +283,12 @@ def resolve_ref(refspec, info) -> tuple[str, int | None]:
         return shas[i][:10], i
     if kind == "HEAD~1":
         return ("HEAD~1", info["head_commit"] - 1) if info["head_commit"] >= 1 else ("HEAD~1", None)
+    if kind == "absent":
+        # a commit at which the package does not exist (while it may well exist in the working tree)
+        absent = [i for i, c in enumerate(info.get("commit_states", ())) if c == "absent"]
+        if absent:
+            i = absent[idx % len(absent)]
+            return shas[i], i
     if kind == "unknown":
         return "no-such/ref", None
     if kind == "main":
@@ -285,7 +303,7 @@ def strategy():
     commit = st.fixed_dictionaries(
         {"state": st.sampled_from(["ok"] * 7 + ["syntax_top", "syntax_sub", "absent"]), "variant": st.integers(0, 3), "msg": st.sampled_from([0, 0, 1, 2, 2, 3, 4, 5])}
     )
-    refspec = st.tuples(st.sampled_from(["tag", "tag", "branch", "branch", "slashed", "slashed", "remote", "sha", "short", "HEAD", "HEAD~1", "main", "unknown"]), st.integers(0, 3)).map(list)
+    refspec = st.tuples(st.sampled_from(["tag", "tag", "branch", "branch", "slashed", "slashed", "remote", "sha", "short", "absent", "HEAD", "HEAD~1", "main", "unknown"]), st.integers(0, 3)).map(list)
     ext_fault = st.fixed_dictionaries({"type": st.sampled_from(["ext_exc", "ext_kbi"]), "k": st.integers(0, 400)})
     sub_fault = st.fixed_dictionaries({"type": st.sampled_from(["sub_nonzero", "sub_oserror"]), "i": st.integers(0, 4)})
     fault = st.one_of(st.none(), st.none(), ext_fault, ext_fault, sub_fault)
@@ -301,6 +319,7 @@ def strategy():
             "preexisting": st.sampled_from([False] * 7 + [True]),
             "user_wt": st.sampled_from([None] * 5 + ["ref", "ref", "griffe-ref"]),
             "thread": st.sampled_from([False, False, True]),
+            "root_on_syspath": st.sampled_from([False, False, True]),
             "fault": fault,
         }
     )
@@ -316,6 +335,7 @@ def strategy():
             "dirty": st.fixed_dictionaries({"modified": st.booleans(), "staged": st.booleans(), "untracked": st.booleans(), "stash": st.sampled_from([False, False, True])}),
             "user_worktree": st.sampled_from([False, False, False, True]),
             "sibling": st.sampled_from([None, "private", "private", "public"]),
+            "late_package": st.sampled_from([False, False, True]),
             "clone": st.sampled_from([None, None, None, "path", "file"]),
             "clone_no_tags": st.sampled_from([False, False, True]),
             "upstream_after": st.booleans(),
